@@ -34,6 +34,25 @@ legacy t == t of the matrix path (property: both use the effective base).
 The p-value the overlap path reports for a column against itself (0.0, pinned by the library's
 integration tests) is modelled (ov_p_self) but is outside the property text (it states t = 0 for
 a column against itself and that the column is never listed; both are checked).
+Read order of the two families (seeded change C13-5: a per-slice cache of the assembled pairwise matrices
+keyed by (stat, column) only, shared by the proportions / overlap accessors and the means accessors, so that
+whichever family is asked second for a column returns the first family's t, p and index sets): the property
+states each family's t / p / index sets as functions of the data and the configuration, so they hold whatever
+was read before.  Every case whose response carries a mean measure (both families are defined on its slice)
+gets a READ-ORDER LEG (family_interleaving): ONE slice object is asked for pairwise_significance_t_stats(c) /
+p_vals(c) / means_t_stats(c) / means_p_vals(c) of every displayed column and for pairwise_indices(_alt) /
+pairwise_means_indices(_alt) in an interleaving shuffled by a PRNG seeded with the case number (so for some
+columns the proportions family comes first, for others the means family), and every value is compared
+value-exactly (NaN = NaN) with the same read on a FRESH slice; distribution keys family_interleaving:*.
+MR x MR overlap rows with their own respondents (seeded change C13-6: the overlap test "vectorised" with the
+standard error and the degrees of freedom of the FIRST row's overlap bases reused for every row): the main
+stream's MR x MR overlap cases have 1-2 row items and often n in {0, 3}, so no case had two rows with different
+bases AND a finite statistic.  The class `mr_x_mr_items_put_to_subsamples` (24 quick cases from an own PRNG,
+appended to the main stream) has 2-4 row items and 2-4 column items, n >= 20, and every row item (half of the
+time every column item too) is put to its own random sub-sample (c13_util.put_items_to_subsamples: per-item
+missingness), so the selected / valid overlap bases and the degrees of freedom differ from row to row; the
+respondent-level oracle (c13_util.overlap_bases_from_survey) and the model (ov_tblock / ov_dfblock, one S / N
+matrix per row) already are per row.  Distribution keys class=..., mr_x_mr_overlap:*.
 Zero-variance boundary (float64 vs exact, DESIGN 2.4 / 7.2): where the variance under the square
 root of a t cancels exactly or to a rounding residue (|V| <= 1e-12 * sum of |terms of V|, computed
 with fractions from the model's own inputs) float64 and exact arithmetic legitimately return
@@ -55,21 +74,29 @@ from harness.core import g_mat, g_vec, g_Z, g_nat, g_bool, g_list
 from harness.props import c12_util as U
 from harness.props import c13_util as V
 from harness.props import c13_probe as PR
+from harness.props import c13_legacy as LG
 
 PID = "C13"
 IMPORTS = """From Coq Require Import QArith ZArith List Bool.
 From CC Require Import Base.XQ Base.Render Base.ListX Model.Pairwise.
 %s
-Import ListNotations.""" % PR.IMPORT_LINE
+Import ListNotations.""" % (PR.IMPORT_LINE + "\n" + LG.IMPORT_LINE)
 
 
 # ------------------------------------------------------------------------------------
 # generator
 # ------------------------------------------------------------------------------------
 
-def gen_case(rng, k):
+MRXMR = "mr_x_mr_items_put_to_subsamples"
+
+
+def gen_case(rng, k, force=None):
+    """force=MRXMR: the MR x MR overlap class whose row (and column) items are put to different
+    sub-samples (module docstring); the default stream consumes `rng` exactly as before."""
     r = rng.random()
     stream = "cols" if r < 0.58 else "means" if r < 0.70 else "overlap" if r < 0.90 else "mr_plain"
+    if force == MRXMR:
+        stream = "overlap"
     weighted = rng.random() < 0.7
     squared = False
     numvars = []
@@ -87,6 +114,9 @@ def gen_case(rng, k):
         rowv = gen.make_cat(rng, "rowv", n_valid=rng.randint(1, 3))
         colv = gen.make_cat(rng, "colv", n_valid=rng.randint(1, 4))
         numvars = ["x"]
+    elif stream == "overlap" and force == MRXMR:
+        rowv = gen.make_mr(rng, "rowv", n_items=rng.randint(2, 4))
+        colv = gen.make_mr(rng, "colv", n_items=rng.randint(2, 4))
     elif stream == "overlap":
         rowv = gen.make_cat(rng, "rowv", n_valid=rng.randint(1, 3)) if rng.random() < 0.8 \
             else gen.make_mr(rng, "rowv", n_items=rng.randint(1, 2))
@@ -99,7 +129,15 @@ def gen_case(rng, k):
         if v.kind == "cat" and rng.random() < 0.55:
             v.view_insertions = gen.random_insertions(rng, v)
     n = rng.choice([0, 3, 10, 20, 30, 40, 60, 80, 120])
+    if force == MRXMR:
+        n = rng.choice([20, 30, 40, 60, 80])
     sv = gen.Survey([rowv, colv], n, rng, weighted=weighted, numvars=numvars)
+    if force == MRXMR:
+        # row item 0 is put to (nearly) everybody, the others to smaller sub-samples: the bases of the
+        # first row are the ones that differ most from every other row's
+        V.put_items_to_subsamples(sv, "rowv", rng, first_share=1.0)
+        if rng.random() < 0.5:
+            V.put_items_to_subsamples(sv, "colv", rng)
     aliases = ["rowv", "colv"]
     if stream == "means":
         resp = gen.cube_response(sv, aliases, measures=("count", "mean", "stddev"), numvar="x")
@@ -135,7 +173,7 @@ def gen_case(rng, k):
                                  "both(MR x MR)" if rowv.kind == "mr" else "columns_only(CAT x MR)"),
             "weighted": weighted, "squared": squared, "ov_weighted": ov_weighted,
             "response": resp, "transforms": transforms or None, "aval": aval, "olval": olv,
-            "SN": SN}
+            "SN": SN, "cls": force}
 
 
 def strip_col_insertions(resp):
@@ -225,6 +263,7 @@ def impl_run(case):
         return {"error": gb}
     B = gb[1]
     io["B"] = read_run(B, stream, False)
+    io["LG"] = LG.read_impl(B, case, io.get("dimtypes"))   # legs of c13_legacy.py
     if PR.wanted(case):
         gp = PR.probe_impl(case)
         if gp[0] == "ok" and _ok(gp[1].get("row_order")) and _ok(gp[1].get("column_order")):
@@ -379,6 +418,7 @@ def build_terms(case, io):
          "flat_map (fun PT => r_list r_nats (indices_col b %s (fst PT) (fst (snd PT)) (snd (snd PT)))) %s end "
          "| A_type_error => [1] | A_value_error => [2] end" % (case["aval"], ol, ol, pts, ol, pts))
     jobs.append(("sets", t, {"have_pt": pts != "[]"}))
+    jobs.extend(LG.build_jobs(case, io))   # legs of c13_legacy.py
     return jobs
 
 
@@ -635,6 +675,8 @@ def compare(case, io, jobs, results, rep):
                 if bad is not None:
                     fails.append(("legacy-t", {"display_col": c, "first_diff(i,j,impl,model)": bad}))
                     break
+        elif LG.compare(kind, d, aux, case, io, fails):   # legs of c13_legacy.py (kinds "lg-...")
+            pass
         elif kind == "sets":
             tag = d.Z()
             if tag == 0:
@@ -692,6 +734,7 @@ def compare(case, io, jobs, results, rep):
         rep.dist("probe_cdf_p_cells_skipped_zero_variance_boundary", io["probe_bd_skipped"])
     if io.get("probe_error") is not None:
         rep.dist("probe_cdf_leg_unavailable")
+    LG.distribution(io, rep)
     # relational oracles on the implementation alone
     _oracles(case, io, fails, rep)
     return fails
@@ -911,11 +954,87 @@ def _oracles(case, io, fails, rep):
 
 
 # ------------------------------------------------------------------------------------
+# READ-ORDER LEG of the two test families (module docstring; pattern of common_cases.late_reads)
+# ------------------------------------------------------------------------------------
+
+_FAMILIES = {
+    "proportions": (("pairwise_significance_t_stats", "pairwise_significance_p_vals"),
+                    ("pairwise_indices", "pairwise_indices_alt")),
+    "means": (("pairwise_significance_means_t_stats", "pairwise_significance_means_p_vals"),
+              ("pairwise_means_indices", "pairwise_means_indices_alt")),
+}
+
+
+def has_mean_measure(case):
+    try:
+        return "mean" in case["response"]["result"]["measures"]
+    except (KeyError, TypeError):
+        return False
+
+
+def family_interleaving(case, limit_culprits=4):
+    """ONE slice object is asked for BOTH families of column tests - every per-column method read
+    (t and p of every displayed column, proportions and means) and the four index-set properties - in
+    an interleaving shuffled by a PRNG seeded with the case number; each value is compared
+    value-exactly (NaN = NaN, same exception type) with the same read on a FRESH slice built from
+    the same arguments.  -> (stats dict, None | failure detail)"""
+    from harness.props import common_cases as cc
+    resp, tr = case["response"], case["transforms"]
+    rng = random.Random(1000003 * int(case.get("k", 0)) + 131)
+    g0 = impl.guarded(lambda: impl.partition(resp, tr))
+    if g0[0] != "ok":
+        return None, None
+    shared = g0[1]
+    co = impl.get(shared, "column_order")
+    if co[0] != "ok":
+        return None, None
+    nd = len(co[1])
+    reads = []   # (family, name, args)
+    for fam, (per_col, props) in sorted(_FAMILIES.items()):
+        reads += [(fam, n, (c,)) for n in per_col for c in range(nd)]
+        reads += [(fam, n, ()) for n in props]
+    rng.shuffle(reads)
+    stats = {"reads": len(reads), "columns": nd, "proportions_first": 0, "means_first": 0}
+    first_of_col = {}
+    for fam, _n, args in reads:
+        if args and args[0] not in first_of_col:
+            first_of_col[args[0]] = fam
+    for fam in first_of_col.values():
+        stats[fam + "_first"] += 1
+
+    def fresh_read(name, args, before=()):
+        q = impl.partition(resp, tr)
+        for _f, pre, pargs in before:
+            impl.get(q, pre, *pargs)
+        return cc._canon_read(impl.get(q, name, *args))
+
+    for pos, (fam, name, args) in enumerate(reads):
+        got = cc._canon_read(impl.get(shared, name, *args))
+        want = fresh_read(name, args)
+        if got == want:
+            continue
+        culprits = []
+        for pre in reads[:pos]:
+            if fresh_read(name, args, before=(pre,)) != want:
+                culprits.append("%s%s" % (pre[1], list(pre[2]) if pre[2] else ""))
+                if len(culprits) >= limit_culprits:
+                    break
+        return stats, {"read": name, "args": list(args), "family": fam, "position_in_sequence": pos,
+                       "on_fresh_slice": want, "on_shared_slice": got,
+                       "earlier_reads_on_the_shared_slice": ["%s%s" % (n, list(a) if a else "")
+                                                             for _f, n, a in reads[:pos]],
+                       "single_earlier_reads_that_change_it": culprits}
+    return stats, None
+
+
+# ------------------------------------------------------------------------------------
 
 def _replayable(case):
     d = {k: case[k] for k in ("k", "stream", "row_kind", "col_kind", "weighted", "squared",
                               "ov_weighted", "response", "transforms", "aval", "olval", "SN")}
     d["overlap_measures"] = case.get("overlap_measures", "none")
+    if case.get("cls"):
+        d["cls"] = case["cls"]
     return d
 
 
@@ -946,6 +1065,24 @@ def check_cases(cases, rep, tag="cases"):
             what, detail = f[0], f[1]
             extra = f[2] if len(f) > 2 else {}
             out.append((case, what, detail, extra))
+    # READ-ORDER LEG of the two families: every case whose response carries a mean measure (both
+    # families are defined on its slice)
+    for case, io in zip(cases, ios):
+        if "error" in io or not has_mean_measure(case):
+            continue
+        g = impl.guarded(lambda: family_interleaving(case), seconds=120)
+        if g[0] != "ok":
+            out.append((case, "read-order", {"error": g}, {"path": "both-families"}))
+            continue
+        stats, bad = g[1]
+        if stats is None:
+            continue
+        rep.dist("family_interleaving:slices")
+        rep.dist("family_interleaving:reads_compared_with_a_fresh_slice", stats["reads"])
+        rep.dist("family_interleaving:columns_asked_proportions_family_first", stats["proportions_first"])
+        rep.dist("family_interleaving:columns_asked_means_family_first", stats["means_first"])
+        if bad is not None:
+            out.append((case, "read-order", bad, {"path": bad["family"]}))
     return out, ios, coq_s, len(terms)
 
 
@@ -955,11 +1092,24 @@ def run(tier, seed):
     n_cases = 240 if tier == "quick" else 4400
     rng = random.Random(seed)
     cases = [gen_case(rng, k) for k in range(n_cases)]
+    # MR x MR with overlap measures whose items are put to different sub-samples: own PRNG, appended, so
+    # that the main stream (and the known-finding hits on it) is unchanged
+    xrng = random.Random(seed * 7919 + 1306)
+    n_x = 24 if tier == "quick" else 400
+    cases.extend(gen_case(xrng, n_cases + j, force=MRXMR) for j in range(n_x))
     fails, ios, coq_s, nterms = check_cases(cases, rep)
     for case, io in zip(cases, ios):
         nt = io.get("n_finite", 0) > 0
         rep.count_case(_replayable(case), nt)
         rep.dist("stream=" + case["stream"])
+        if case.get("cls"):
+            rep.dist("class=" + case["cls"])
+        if case.get("overlap_measures") == "both(MR x MR)" and case.get("SN"):
+            sn = case["SN"]
+            own = sum(1 for i in range(1, len(sn["S"])) if (sn["S"][i], sn["N"][i]) != (sn["S"][0], sn["N"][0]))
+            rep.dist("mr_x_mr_overlap:rows_whose_overlap_bases_differ_from_the_first_row", own)
+            if own and nt and len(sn["S"][0]) > 1:
+                rep.dist("mr_x_mr_overlap:nontrivial_cases_with_row_specific_bases")
         rep.dist("%s x %s" % (case["row_kind"], case["col_kind"]))
         rep.dist("weighted" if case["weighted"] else "unweighted")
         if case["squared"]:
@@ -983,7 +1133,7 @@ def run(tier, seed):
         ctx.update(extra)
         kind = "impl-vs-property" if what in ("antisymmetry", "p-symmetry", "self-t", "self-pvalue",
                                               "self-in-indices", "alt-not-superset", "equivariance",
-                                              "legacy-vs-property") else "impl-vs-model"
+                                              "legacy-vs-property", "read-order") else "impl-vs-model"
         rep.violation(kind, _replayable(case), dict(detail, what=what), ctx)
     rep.cov["rule"] = (
         "cases from random.Random(seed): CAT|MR x CAT column tests (weighted / unweighted, with and without "
@@ -993,8 +1143,12 @@ def run(tier, seed):
         "ALSO carries the overlap measures of the rows MR (overlap routing: measures on rows only / columns only / "
         "both, counted as overlap_measures_on=...; the categorical columns keep the two-proportion test); alpha spelled as "
         "absent/falsy/float/[a]/[a,b]/[a,b,extra] plus a malformed stream; only_larger absent/false/true/other; "
-        "60% with column order/hide transforms, 25% with row ones; non-trivial = at least one finite non-zero "
-        "statistic compared; distinct by content hash")
+        "60% with column order/hide transforms, 25% with row ones; PLUS (own PRNG, appended) MR (2-4 items) x MR "
+        "(2-4 items) with overlap measures, n >= 20, every row item (half of the time every column item) put to "
+        "its own sub-sample (class=mr_x_mr_items_put_to_subsamples; rows with their own overlap bases are counted in "
+        "mr_x_mr_overlap:*); read-order leg on every case with a mean measure: both test families read on ONE "
+        "slice in a seeded interleaving, each read compared with a fresh slice (family_interleaving:*); "
+        "non-trivial = at least one finite non-zero statistic compared; distinct by content hash")
     ratios = [io["min_ratio"] for io in ios if io.get("min_ratio") is not None]
     rep.cov["zero_variance_boundary"] = {
         "rule": "every t / p cell is compared with the model; a DISAGREEMENT is not a violation but skipped "
